@@ -433,3 +433,34 @@ def known_matches(k, v):
         if not g.startswith("K:") or g.split(";S:")[0] != rec.get("model"):
             return False
     return bool(m)
+
+
+# ----------------------------------------------------------------------------- Miri
+def miri_replay(files, shards=14, timeout=2400):
+    """Replay vector / behaviour files under Miri (cargo +nightly miri run): any undefined behaviour in the code
+    under test aborts the interpreter.  Returns (summaries, failures[(shard file, tail of output)])."""
+    tdir = os.path.join(WORK, "target-miri")
+    e = dict(os.environ)
+    e["MIRIFLAGS"] = "-Zmiri-disable-isolation"
+    e["CARGO_TARGET_DIR"] = tdir
+    e["CARGO_NET_OFFLINE"] = "true"
+    e.pop("RUSTFLAGS", None)
+    # build once
+    p = subprocess.run(["timeout", "1500", "cargo", "+nightly", "miri", "run", "--offline", "--", "replay"], cwd=HARNESS, env=e,
+                       stdout=subprocess.PIPE, stderr=subprocess.STDOUT, text=True)
+    if p.returncode != 0 or '"lines":0' not in p.stdout.replace(" ", ""):
+        raise ToolError("the harness does not build/run under Miri:\n" + tail(p.stdout, 40))
+
+    def one(f):
+        q = subprocess.run(["timeout", str(timeout), "cargo", "+nightly", "miri", "run", "--offline", "--", "replay", f],
+                           cwd=HARNESS, env=e, stdout=subprocess.PIPE, stderr=subprocess.STDOUT, text=True, errors="replace")
+        return f, q.returncode, q.stdout
+    sums, fails = [], []
+    with ThreadPoolExecutor(shards) as ex:
+        for f, rc, out in ex.map(one, files):
+            last = [l for l in out.splitlines() if l.startswith("{") and '"lines"' in l]
+            if rc == 0 and last:
+                sums.append(json.loads(last[-1]))
+            else:
+                fails.append((f, rc, tail(out, 40)))
+    return sums, fails
